@@ -21,7 +21,19 @@ def funcs : List (String × String) := [
   ("internal/check/authorize_sender/authorize_sender.go:state.authzSender", "4d292032593f159c"),
   ("internal/check/authorize_sender/authorize_sender.go:type Check", "048a0a501c20b47c"),
   ("internal/check/authorize_sender/authorize_sender.go:type state", "e7fa255474690df7"),
-  ("internal/endpoint/smtp/submission.go:Session.submissionPrepare", "b32560a1fe86f8f8")
+  ("internal/endpoint/smtp/submission.go:Session.submissionPrepare", "b32560a1fe86f8f8"),
+  ("internal/table/file.go:File.Close", "8d7e74fbbc429d93"),
+  ("internal/table/file.go:File.Init", "b8f24a4ea69a876e"),
+  ("internal/table/file.go:File.InstanceName", "4f927b505f1a81e2"),
+  ("internal/table/file.go:File.Lookup", "fab00b28589dc6c3"),
+  ("internal/table/file.go:File.LookupMulti", "a2ae1d54593bee96"),
+  ("internal/table/file.go:File.Name", "232e0da49c76c919"),
+  ("internal/table/file.go:File.reload", "25e2ea568d0fcf5c"),
+  ("internal/table/file.go:File.reloader", "6d6c78011f03b930"),
+  ("internal/table/file.go:NewFile", "75299d49a285ff4a"),
+  ("internal/table/file.go:init", "b24701aa4bc44721"),
+  ("internal/table/file.go:readFile", "861ec2acade1c63b"),
+  ("internal/table/file.go:type File", "e56871942700c5a3")
 ]
 
 end MaddyVerif.Expect.FuncSkelC15
